@@ -38,6 +38,21 @@ int gfr_log (int m, unsigned a)
 	return -1;
 }
 
+/* table cache of gfr_mul (filled from the shift-and-reduce definition on first use), only to speed the
+ * reference generator up */
+static unsigned char gfr_tab8[256][256], gfr_tab4[16][16];
+static int gfr_tab_ready;
+static inline unsigned gfr_mulf (int m, unsigned a, unsigned b)
+{
+	if (!gfr_tab_ready) {
+		unsigned x, y;
+		for (x = 0; x < 256; x++) for (y = 0; y < 256; y++) gfr_tab8[x][y] = (unsigned char) gfr_mul (8, x, y);
+		for (x = 0; x < 16; x++) for (y = 0; y < 16; y++) gfr_tab4[x][y] = (unsigned char) gfr_mul (4, x, y);
+		gfr_tab_ready = 1;
+	}
+	return m == 8 ? gfr_tab8[a & 255][b & 255] : gfr_tab4[a & 15][b & 15];
+}
+
 /* ------------------------------------------------------------------ RS generator */
 int rsr_generator (int m, int k, int n, unsigned char *G)
 {
@@ -46,7 +61,7 @@ int rsr_generator (int m, int k, int n, unsigned char *G)
 	int i, j, c, ret = 0;
 	for (i = 0; i < n; i++) {
 		unsigned p = i == 0 ? 0 : gfr_exp (m, (unsigned) (i - 1)), v = 1;
-		for (c = 0; c < k; c++) { V[i * k + c] = (unsigned char) v; v = gfr_mul (m, v, p); }
+		for (c = 0; c < k; c++) { V[i * k + c] = (unsigned char) v; v = gfr_mulf (m, v, p); }
 	}
 	memcpy (M, V, (size_t) k * k);
 	memset (A, 0, (size_t) k * k);
@@ -64,20 +79,20 @@ int rsr_generator (int m, int k, int n, unsigned char *G)
 				t = A[c * k + j]; A[c * k + j] = A[piv * k + j]; A[piv * k + j] = t;
 			}
 		inv = gfr_inv (m, M[c * k + c]);
-		for (j = 0; j < k; j++) { M[c * k + j] = (unsigned char) gfr_mul (m, M[c * k + j], inv); A[c * k + j] = (unsigned char) gfr_mul (m, A[c * k + j], inv); }
+		for (j = 0; j < k; j++) { M[c * k + j] = (unsigned char) gfr_mulf (m, M[c * k + j], inv); A[c * k + j] = (unsigned char) gfr_mulf (m, A[c * k + j], inv); }
 		for (i = 0; i < k; i++) {
 			unsigned f = M[i * k + c];
 			if (i == c || !f) continue;
 			for (j = 0; j < k; j++) {
-				M[i * k + j] ^= (unsigned char) gfr_mul (m, f, M[c * k + j]);
-				A[i * k + j] ^= (unsigned char) gfr_mul (m, f, A[c * k + j]);
+				M[i * k + j] ^= (unsigned char) gfr_mulf (m, f, M[c * k + j]);
+				A[i * k + j] ^= (unsigned char) gfr_mulf (m, f, A[c * k + j]);
 			}
 		}
 	}
 	for (i = 0; i < n; i++)
 		for (j = 0; j < k; j++) {
 			unsigned s = 0;
-			for (c = 0; c < k; c++) s ^= gfr_mul (m, V[i * k + c], A[c * k + j]);
+			for (c = 0; c < k; c++) s ^= gfr_mulf (m, V[i * k + c], A[c * k + j]);
 			G[i * k + j] = (unsigned char) s;
 		}
 out:
@@ -93,8 +108,8 @@ void rsr_encode_symbol (int m, int k, const unsigned char *Grow, unsigned char *
 		unsigned acc = 0;
 		for (i = 0; i < k; i++) {
 			unsigned c = Grow[i], v = src[i][b];
-			if (m == 8) acc ^= gfr_mul (8, c, v);
-			else acc ^= (gfr_mul (4, c, v >> 4) << 4) | gfr_mul (4, c, v & 15);
+			if (m == 8) acc ^= gfr_mulf (8, c, v);
+			else acc ^= (gfr_mulf (4, c, v >> 4) << 4) | gfr_mulf (4, c, v & 15);
 		}
 		out[b] = (unsigned char) acc;
 	}
